@@ -47,9 +47,9 @@ type Script struct {
 	Stops      []StopAt `json:"stops"`
 	FailCall   int      `json:"fail_call"` // targeter fails at this call (1-based), 0 = never
 	Name       string   `json:"name"`
-	MaxHits    int      `json:"max_hits"`             // pacer answers stop once this many hits were released (safety net for unlimited scripts), 0 = none
-	TimeoutMs  int      `json:"timeout_ms,omitempty"` // request timeout of the client, 0 = none
-	WaitUs     int      `json:"wait_us,omitempty"`    // unit of Waits in microseconds (0 = 1000: milliseconds)
+	MaxHits    int      `json:"max_hits"`              // pacer answers stop once this many hits were released (safety net for unlimited scripts), 0 = none
+	TimeoutMs  int      `json:"timeout_ms,omitempty"`  // request timeout of the client, 0 = none
+	WaitUs     int      `json:"wait_us,omitempty"`     // unit of Waits in microseconds (0 = 1000: milliseconds)
 	PaceLatUs  int      `json:"pace_lat_us,omitempty"` // the pacer itself takes this long to answer (0 = no time at all)
 	StepMs     int      `json:"step_ms,omitempty"`     // the monitor looks at the run every StepMs instants (0 = 1: every instant)
 }
